@@ -34,7 +34,7 @@ RULE = ("history as in C08 applied to a (cached, uncached) pair, plus image-iter
         "hash of the operation list")
 PROBES = ["frame_revisited_after_setting_change", "cache_hit_observed", "render_fault_both_sides",
           "image_iterator", "image_size_changed_mid_iteration", "dynamic_size_resize",
-          "cache_int_equal_frame_count", "infinite_loops"]
+          "cache_int_equal_frame_count", "infinite_loops", "equal_setting_set_again"]
 COMPONENTS = {
     "real": ["RenderIterator (cache entries keyed by size/duration/args, padding after cache)",
              "ImageIterator._animate two-phase cache", "BaseImage._renderer / _render_image",
@@ -99,11 +99,17 @@ def run_render(ch, ctx, fault):
                % (cols, rows, n, size, dur0, loops, cache_on, cache_off, pm.describe(), fail_frame))
         term = [cols, rows]
         epoch = 0
-        rendered_in_epoch = set()
+        # the settings a frame's cache entry depends on, by VALUE: setting an equal size,
+        # duration or argument set again leaves "those settings unchanged"
+        settings = {"size": tuple(size), "dur": "DYNAMIC" if dynamic else dur0, "args": ("#", 0)}
+        rendered_under = {}     # frame number -> settings of its last render (cached side)
         seen_log = 0
         visited = {}
         n_ops = ch.int("n_ops", 4, ctx.cfg["max_ops"])
         key = []
+
+        def current():
+            return (settings["size"], settings["dur"], settings["args"])
 
         def both(fn, desc, site):
             outs = []
@@ -147,9 +153,9 @@ def run_render(ch, ctx, fault):
                 # render-count oracle on the cached side
                 log = hooks[0].render_log
                 for (_tok, fno, _sz, _c, _d, _fin) in log[seen_log:]:
-                    check(fno not in rendered_in_epoch, "cached_frame_rendered_twice",
-                          {"frame": fno, "step": i, "epoch": epoch}, "render_count")
-                    rendered_in_epoch.add(fno)
+                    check(rendered_under.get(fno) != current(), "cached_frame_rendered_twice",
+                          {"frame": fno, "step": i, "settings": repr(current())}, "render_count")
+                    rendered_under[fno] = current()
                 if res[0] == "ok" and len(log) == seen_log:
                     ctx.probe("cache_hit_observed")
                 seen_log = len(log)
@@ -163,8 +169,11 @@ def run_render(ch, ctx, fault):
                 res = both(lambda it, S: it.set_frame_duration(arg), "set_frame_duration(%s)" % d,
                            "set")
                 if res[0] == "ok":
-                    epoch += 1
-                    rendered_in_epoch = set()
+                    if settings["dur"] != d:
+                        epoch += 1
+                    else:
+                        ctx.probe("equal_setting_set_again")
+                    settings["dur"] = d
             elif op == "padding":
                 pm2 = gen_padmodel(ch, tuple(term))
                 both(lambda it, S: it.set_padding(pm2.build(padding_mod)),
@@ -175,15 +184,21 @@ def run_render(ch, ctx, fault):
                 res = both(lambda it, S: it.set_render_args(+S.SimArgs(c2, sh2)),
                            "set_render_args(char=%r, shift=%d)" % (c2, sh2), "set")
                 if res[0] == "ok":
-                    epoch += 1
-                    rendered_in_epoch = set()
+                    if settings["args"] != (c2, sh2):
+                        epoch += 1
+                    else:
+                        ctx.probe("equal_setting_set_again")
+                    settings["args"] = (c2, sh2)
             elif op == "size":
                 s2 = (ch.int("w2", 1, 5), ch.int("h2", 1, 3))
                 res = both(lambda it, S: it.set_render_size(ti.geometry.Size(*s2)),
                            "set_render_size(%s)" % (s2,), "set")
                 if res[0] == "ok":
-                    epoch += 1
-                    rendered_in_epoch = set()
+                    if settings["size"] != s2:
+                        epoch += 1
+                    else:
+                        ctx.probe("equal_setting_set_again")
+                    settings["size"] = s2
             elif op == "close":
                 both(lambda it, S: it.close(), "close()", "close")
             else:
